@@ -32,6 +32,7 @@ INLINE_GRAMMARS = {
     "choice": 'k = { ("select" | "set" | ^"from" | \'a\'..\'f\' | "x" | LETTER)+ }\nm = _{ "a" | "b" | k }\nt = { #tg = m ~ (m | "!")* }',
     "stack": 'q = { PUSH("a"+ | "b") ~ ("-" ~ PEEK)* ~ (POP | DROP ~ "z") ~ PEEK_ALL ~ EOI }\nr = ${ PUSH_LITERAL("x") ~ (!POP ~ ANY)* ~ POP }',
     "trivia": 'WHITESPACE = _{ " " | "\\t" }\nCOMMENT = _{ "#" ~ (!NEWLINE ~ ANY)* }\ns = { "a"{2,3} ~ b* ~ c? ~ EOI }\nb = @{ "b" ~ ("c" | "d")+ }\nc = ${ "e" ~ b }\nu = @{ (!("x" | "yz") ~ ANY)* ~ "x" }',
+    "ci": 'c = { ^"ss" ~ "!" | ^"fi" ~ ANY? | ^"k" }\nd = @{ ^"Stra" ~ (^"sse" | "\\u{DF}e") }',
     "rec": 'e = { "(" ~ e ~ ")" | t+ }\nt = _{ \'0\'..\'9\' | "+" | e2 }\ne2 = !{ "[" ~ e? ~ "]" }\nWHITESPACE = _{ " " }',
 }
 BUNDLED = {"json": ("tests/grammars/json.pest", "json"), "calc": ("examples/calculator/calculator.pest", "program"), "lists": ("tests/grammars/lists.pest", "lists"), "csv": ("examples/csv/csv.pest", "file")}
@@ -41,6 +42,7 @@ CALLS: dict[str, list[tuple[str, str]]] = {
     "choice": [("k", "selectsetFROMaxé"), ("k", "sel"), ("t", "ab!a"), ("t", "!"), ("k", "Q"), ("t", "selectb")],
     "stack": [("q", "aa-aa-aaaa"), ("q", "b-bzb"), ("q", "aa-a"), ("r", "abcx"), ("r", "x"), ("q", "")],
     "trivia": [("s", "a a  a b c # x"), ("s", "aabcd bdd ebc"), ("s", "a"), ("u", "abyx"), ("u", "yz"), ("s", "aaa  ebd\t#"), ("b", "bcdx")],
+    "ci": [("c", "SS!"), ("c", "\u00df!"), ("c", "\ufb01x"), ("c", "Fi"), ("c", "\u212a"), ("c", "K"), ("d", "STRASSE"), ("d", "stra\u00dfe"), ("d", "stra\u1e9ee")],
     "rec": [("e", "((1+2))"), ("e", "(1"), ("e", "[ ( 1 ) ]+"), ("e", "[[]]"), ("e", ")")],
     "json": [("json", '{"a": [1, 2.5e3, true, null, "x\\n"], "b": {}}'), ("json", "[1, 2"), ("json", '{"a": tru}'), ("json", "[[[[1.5e3]]]]"), ("json", ""), ("json", ' [ "\\u00e9" ] ')],
     "calc": [("program", "1 + 2 * 3"), ("program", "-x! ^ 2 - (3 / y)"), ("program", "1 +"), ("program", "(1"), ("program", " 5! ")],
